@@ -53,9 +53,18 @@ def _split_acc(l):
         src = a if (a[0] == "idx" and a[1][0] == "attr" and a[1][2] in QNAMES) else b
         factor = b if src is a else a
         v = src
+    mask = None
+    if v[0] == "idx" and unobj(v[1])[0] == "mul":
+        # (cs.phase * <mask>)[IDX]: the channel's array restricted by a mask before it is added
+        fs = list(unobj(v[1])[1:])
+        srcs = [f for f in fs if f[0] == "attr" and f[2] in QNAMES]
+        if len(srcs) == 1:
+            rest = [f for f in fs if f is not srcs[0]]
+            mask = rest[0] if len(rest) == 1 else ("mul",) + tuple(rest)
+            v = ("idx", srcs[0], v[2])
     if not (v[0] == "idx" and v[1][0] == "attr"):
         return None
-    return t[1][1], q, t[2], v[1][1], v[1][2], v[2], factor
+    return t[1][1], q, t[2], v[1][1], v[1][2], v[2], factor, mask
 
 
 def run(E: Engine, rep: Report, tier: str) -> dict:
@@ -74,6 +83,8 @@ def run(E: Engine, rep: Report, tier: str) -> dict:
     glist = list(groups.values())
     for gi, g in enumerate(glist):
         qs = sorted(p[1] for _l, p in g)
+        if qs == ["det"] and any(mentions(x, "eom_blocks") for x in sym.conj_of(g[0][0].cond)):
+            continue  # the EOM tail (decided below)
         where = E.where(tnd, g[0][0].node)
         key = f"to_nested_dict|group{gi}|{'local' if len(g[0][0].loops) >= 3 else 'masked-head' if len(g[0][0].loops) == 2 else 'global'}"
         same_tidx = len({p[2] for _l, p in g}) == 1
@@ -86,6 +97,58 @@ def run(E: Engine, rep: Report, tier: str) -> dict:
         rep.check(qs == sorted(QNAMES) and same_tidx and same_src and matches and idx_agree and fac_ok, "SIB", key, "amp/det/phase accumulated over the same range from the matching source", f"the amp/det/phase statements of this group disagree: {detail}", where)
     if len(glist) < 3:
         rep.error(f"only {len(glist)} amp/det/phase groups found in to_nested_dict (expected 3)")
+    # a channel's phase enters a view only over its own pulses: its phase array holds the last pulse's phase while the
+    # channel idles (and is edge-padded), so adding it whole gives a pulse of ANOTHER channel on the same basis the sum
+    # of both phases.  Every phase statement adds `cs.phase * <mask>` with a mask filled, slot by slot, from cs.amp.
+    mask_fills = [l for l in St.logged("store") if l.fn == tnd.short and l.target is not None and l.target[0] == "idx" and l.target[1][0] == "obj" and mentions(l.value, "amp") and mentions(l.target[2], "ti", "tf")]
+    n_ph = 0
+    for l, p in accs:
+        if p[1] != "phase":
+            continue
+        n_ph += 1
+        m_ = p[7]
+        ok_m = m_ is not None and any(sym.contains(m_, f_.target[1]) and sym.contains(f_.value, p[3]) for f_ in mask_fills)
+        rep.check(ok_m, "SIB", f"to_nested_dict|phase-only-over-own-pulses|{n_ph}", "the phase added is cs.phase masked by the channel's own non-zero pulse slots",
+                  f"`{sh(l.target, 60)} += {sh(l.value, 80)}` adds the channel's whole phase array: while the channel idles the array still holds its last pulse's phase, so with two channels on one basis a pulse of the other channel is given the sum of both phases (X(pi/2) then Y(pi/2) on two channels is not the same as on one)", E.where(tnd, l.node))
+    if n_ph < 3:
+        rep.error(f"only {n_ph} phase accumulations found in to_nested_dict (expected 3)")
+    # samples are a snapshot: nothing handed to the ChannelSamples constructor is a mutable container the schedule goes on
+    # editing (a bare `self.<attr>` of the schedule) -- later calls on the sequence would change samples taken earlier
+    gs = E.method("pulser.sequence._schedule._ChannelSchedule", "get_samples")
+    ctor = [l for l in S(E, gs).calls("ChannelSamples") if l.fn == gs.short]
+    if not ctor:
+        raise AnalysisError("anchor: _ChannelSchedule.get_samples no longer builds ChannelSamples")
+    cls_sched = E.cls("pulser.sequence._schedule._ChannelSchedule")
+    def _mutable_field(nm):
+        for st_ in cls_sched.node.body:
+            if isinstance(st_, ast.AnnAssign) and isinstance(st_.target, ast.Name) and st_.target.id == nm:
+                a_ = ast.unparse(st_.annotation)
+                return a_.split("[")[0].split(".")[-1] in ("list", "List", "dict", "Dict", "set", "Set")
+        for n_ in ast.walk(cls_sched.node):
+            if isinstance(n_, ast.AnnAssign) and isinstance(n_.target, ast.Attribute) and isinstance(n_.target.value, ast.Name) and n_.target.value.id == "self" and n_.target.attr == nm:
+                a_ = ast.unparse(n_.annotation)
+                return a_.split("[")[0].split(".")[-1] in ("list", "List", "dict", "Dict", "set", "Set")
+            if isinstance(n_, ast.Assign) and any(isinstance(t_, ast.Attribute) and isinstance(t_.value, ast.Name) and t_.value.id == "self" and t_.attr == nm for t_ in n_.targets) and isinstance(n_.value, (ast.List, ast.Dict, ast.Set, ast.ListComp, ast.DictComp)):
+                return True
+        return False
+    for l in ctor:
+        for i_, a_ in enumerate(list(l.value[2]) + [v for _k, v in l.value[3]]):
+            if a_[0] == "attr" and a_[1] == ("name", "self") and _mutable_field(a_[2]):
+                rep.violation("SIB", f"_ChannelSchedule.get_samples|samples-own-their-data|{a_[2]}", f"ChannelSamples is given `self.{a_[2]}`, the schedule's own mutable container: calls made on the sequence afterwards (disable/enable_eom_mode, modify_eom_setpoint) change the samples taken before them (their EOM blocks and the padding of extend_duration)", E.where(gs, l.node))
+            else:
+                rep.ok("SIB", f"_ChannelSchedule.get_samples|samples-own-their-data|arg{i_}", "not a mutable container of the schedule itself", E.where(gs, l.node))
+    # a channel left in EOM mode keeps its last targets at detuning_off after its last slot: the per-target branch, which
+    # otherwise copies inside slots only, adds cs.det over the tail under `eom_blocks[-1].tf is None` (the Global branch
+    # copies the whole array)
+    tails = [g for g in glist if sorted(p[1] for _l, p in g) == ["det"] and any(mentions(x, "eom_blocks") for x in sym.conj_of(g[0][0].cond))]
+    ok_t = False
+    for g in tails:
+        l, p = g[0]
+        open_block = any(x[0] == "cmp" and x[1] == "Is" and sym.NONE in (x[2], x[3]) and mentions(x, "eom_blocks") and mentions(x, "tf") for x in sym.conj_of(l.cond))
+        starts_at_last_slot = mentions(p[2], "slots") and mentions(p[2], "tf") and p[2] == p[5]
+        ok_t = ok_t or (open_block and starts_at_last_slot and p[3] == accs[0][1][3] and p[6] is None)
+    rep.check(ok_t, "SIB", "to_nested_dict|per-target-view-keeps-eom-off-detuning-after-last-slot", "under `eom_blocks[-1].tf is None`, cs.det from the last slot's end is added for the last targets",
+              "the per-target branch of to_nested_dict copies samples inside pulse slots only: the detuning_off padding that follows the last slot of a channel still in EOM mode (kept by the Global branch) never reaches the per-qubit view, so a Local EOM channel -- or any emulation that forces all_local -- sees zero detuning there", E.where(tnd))
     # the weight factor appears exactly in the per-atom branch, on the detuning, indexed by that atom
     w_groups = [g for g in glist if any(p[6] is not None for _l, p in g)]
     ok = len(w_groups) == 1
